@@ -738,6 +738,27 @@ def gen_defaults():
     return src, {"Fs": fs, "bands": [(n, repr(lb), repr(ub)) for n, lb, ub in bands]}
 
 
+def check_k(ctx, cases, shard):
+    """K, with one retry of shards whose coqc died for lack of resources (killed / timed out on a
+    machine shared with other checks): such a shard carries no 'Unable to unify' verdict."""
+    import re
+    bad = ctx.check_cases("K", HEADER, cases, "check", shard=shard, case_type="case")
+    flaky = [b for b in ctx.broken if b["kind"] == "K" and "Unable to unify" not in b["detail"]]
+    if flaky:
+        names = {b["lemma"] for b in flaky}
+        ctx.broken = [b for b in ctx.broken if b not in flaky]
+        ctx.obligations = [o for o in ctx.obligations if o[1] not in names]
+        for si in sorted(int(re.match(r"K_(\d+)\.v", n).group(1)) for n in names):
+            sub = cases[si * shard:(si + 1) * shard]
+            saved = (ctx.cases_total, dict(ctx.dist), set(ctx.nontrivial), list(ctx.samples))
+            b2 = ctx.check_cases("K_%d_retry" % si, HEADER, sub, "check", shard=shard, case_type="case")
+            ctx.cases_total, ctx.dist, ctx.nontrivial, ctx.samples = saved
+            bad -= set(range(si * shard, (si + 1) * shard))
+            bad |= {si * shard + j for j in b2}
+        ctx.notes.append("%d K shard(s) re-run after coqc was killed or timed out" % len(names))
+    return bad
+
+
 def run(ctx):
     core.import_nitime()
     ctx.check_props()
@@ -752,6 +773,8 @@ def run(ctx):
             if lb != "0" or ub != "None":
                 ctx.report_fail(Fail("C05/%s/default-band" % name, "default band of %s is lb=%s ub=%s, documented 0 / None" % (name, lb, ub),
                                      [lb, ub], ["0", "None"], {"entry_point": name}))
+    import time
+    t0 = time.time()
     actions = corpus_actions() + gen_actions(ctx)
     cases = []
     nlib = 0
@@ -773,7 +796,13 @@ def run(ctx):
                 if not lib_contract_ok(c.replay["action"], c.replay["observed"]):
                     ctx.notes.append("mlab frequency vector is not k*Fs/NFFT for %s" % json.dumps(c.replay["action"]))
         cases.extend(cs)
-    kbad = ctx.check_cases("K", HEADER, cases, "check", shard=ctx.scale(250, 400), case_type="case")
+    t1 = time.time()
+    # interleave so that every shard holds small and large sizes (balanced coqc times)
+    shard = ctx.scale(160, 400)
+    nsh = max(1, -(-len(cases) // shard))
+    cases = [cases[i] for i in sorted(range(len(cases)), key=lambda i: (i % nsh, i))]
+    kbad = check_k(ctx, cases, shard)
+    t2 = time.time()
     nfail = 0
     for i, c in enumerate(cases):
         f = oracle(c.replay["action"], c.replay["observed"])
@@ -798,6 +827,14 @@ def run(ctx):
                 lb, ub = pick_band(rng, src_fs_float(src), n, "band")
                 a["lb"], a["ub"] = opt_hex(lb), opt_hex(ub)
             k0 = rng.randint(1, n - 1 if (sides == "TwoSided" or site == "A_Spec_fourier_complex") else n // 2)
+            if site in ("S_gs_welch", "S_cache_fft", "A_Spec_psd"):
+                # Hann-windowed segments leak half the amplitude into both neighbours; with the one-sided
+                # doubling a Nyquist / DC neighbour can tie with the peak for tiny NFFT: stay inside
+                # (and the DC / Nyquist bins collect the leakage of both the +k0 and the -k0 line): stay two
+                # bins away from either end
+                if n < 8:
+                    continue
+                k0 = rng.randint(2, (n - 1) // 2 - 1)
             try:
                 f = oracle_sine(a, k0)
             except Exception as e:
@@ -807,6 +844,8 @@ def run(ctx):
                 f.replay = dict(f.replay or {}, entry_point=CALL[site], sinusoid_bin=k0)
                 ctx.report_fail(f, Case("", {"action": dict(a, k0=k0)}, "sine"))
     ctx.extra["model_impl_disagreements"] = len(kbad)
+    ctx.extra["phase_seconds"] = {"implementation_runs": round(t1 - t0, 1), "K_coqc": round(t2 - t1, 1),
+                                  "oracle_and_sinusoids": round(time.time() - t2, 1)}
     ctx.extra["sinusoid_runs"] = nsine
     ctx.extra["library_contract_validations"] = nlib
     ctx.extra["rule"] = ("every N/NFFT from 2 to %d x {onesided, twosided} x {periodogram, periodogram_csd, multi_taper_psd, "
@@ -815,6 +854,11 @@ def run(ctx):
                          "from sampling_interval or sampling_rate in s/ms/us; a case is non-trivial when the call returned a "
                          "frequency vector; distinct by hash of its Coq term" % nmax)
     return ctx.finish(
+        explanation=("P: theorems over the exact-rational model of every frequency grid nitime builds (Model/Freqs.v) against "
+                     "true_bins = k*Fs/NFFT for all N/NFFT, Fs, sides; refuted sub-claims carry witnesses. G: signature defaults "
+                     "(Fs = 2 pi, lb = 0, ub = None). K: the Coq kernel evaluates the model on each sampled call and compares "
+                     "with the frequency vector, spectrum-axis length, cached FFT bins and surviving filter bins the "
+                     "implementation produced. The Fraction oracle and the bin-centred-sinusoid runs search for a failing input."),
         trusted=["numpy linspace / rfftfreq / searchsorted and scipy freqz behave as documented (their arithmetic is what the "
                  "model writes down)",
                  "matplotlib.mlab.psd/csd return k*Fs/NFFT (library contract of the Welch sites; validated numerically on "
